@@ -6,7 +6,10 @@ package main
 //       how the body is closed,
 //   (c) every select statement: which cases it has,
 //   plus who closes pending channels, who calls Cmd.Wait, whether readSSE ends in close(), whether processWatcher
-//   cancels, whether the asynchronous listening-stream start looks at a closed flag.
+//   cancels, whether the asynchronous listening-stream start looks at a closed flag, whether the public Close() of the
+//   clients reaches transport.close() under no condition but `transport != nil`;
+//   (a') for the three servers: every function that registers a server-issued request in a pending table (directly or
+//   through a wrapper such as responseManager.RegisterRequest): is the delete deferred before any return can follow.
 // Purely syntactic and conservative: what is not recognised in exactly the shape the source uses is emitted as
 // `unknown` / `false`, which `Mcp.Calls.factsOf` treats as non-compliant.
 
@@ -652,6 +655,318 @@ func clStartGuarded(root *pkgSrc, fs []clFunc) bool {
 	return false
 }
 
+// clCloseUnguarded: the clients whose public Close() (Client.Close for the Streamable and legacy SSE transports,
+// StdioClient.Close for stdio) reaches `c.transport.close()` under no condition but `c.transport != nil`: every enclosing
+// `if` tests exactly that, and every statement that precedes the call on its way and contains a `return` is
+// `if c.transport == nil { return … }`.
+func clCloseUnguarded(root *pkgSrc) []string {
+	ok := func(file, recv string) bool {
+		f := root.files[file]
+		if f == nil {
+			return false
+		}
+		for _, d := range f.Decls {
+			fd, isFn := d.(*ast.FuncDecl)
+			if !isFn || fd.Body == nil || fd.Name.Name != "Close" || fd.Recv == nil || len(fd.Recv.List) != 1 {
+				continue
+			}
+			if clSquash(root, fd.Recv.List[0].Type) != "*"+recv || len(fd.Recv.List[0].Names) != 1 {
+				continue
+			}
+			r := fd.Recv.List[0].Names[0].Name
+			return clReachesUnguarded(root, fd.Body.List, r+".transport.close()", r+".transport")
+		}
+		return false
+	}
+	var out []string
+	if ok("client.go", "Client") {
+		out = append(out, "sse", "streamable")
+	}
+	if ok("stdio_client.go", "StdioClient") {
+		out = append(out, "stdio")
+	}
+	sort.Strings(out)
+	return out
+}
+
+func clContains(root *pkgSrc, n ast.Node, call string) bool {
+	found := false
+	ast.Inspect(n, func(m ast.Node) bool {
+		if c, ok := m.(*ast.CallExpr); ok && clSquash(root, c) == call {
+			found = true
+		}
+		return true
+	})
+	return found
+}
+
+func clHasReturn(n ast.Node) bool {
+	found := false
+	ast.Inspect(n, func(m ast.Node) bool {
+		switch m.(type) {
+		case *ast.ReturnStmt:
+			found = true
+		case *ast.FuncLit:
+			return false
+		}
+		return true
+	})
+	return found
+}
+
+func clReachesUnguarded(root *pkgSrc, stmts []ast.Stmt, call, tr string) bool {
+	for _, st := range stmts {
+		if !clContains(root, st, call) {
+			// a statement on the way: may not leave the function, except for the nil check of the transport; a call in it may
+			// not be deferred/conditional logic we do not understand either: only returns matter here
+			if clHasReturn(st) {
+				ifs, ok := st.(*ast.IfStmt)
+				if !ok || ifs.Init != nil || ifs.Else != nil || clSquash(root, ifs.Cond) != tr+"==nil" {
+					return false
+				}
+			}
+			continue
+		}
+		switch x := st.(type) {
+		case *ast.ExprStmt, *ast.AssignStmt, *ast.ReturnStmt:
+			return true // err := c.transport.close() / c.transport.close() / return c.transport.close()
+		case *ast.IfStmt:
+			if x.Init != nil && clContains(root, x.Init, call) {
+				return true // if err := c.transport.close(); err != nil { … }
+			}
+			if x.Init != nil || clSquash(root, x.Cond) != tr+"!=nil" {
+				return false
+			}
+			return clReachesUnguarded(root, x.Body.List, call, tr)
+		case *ast.BlockStmt:
+			return clReachesUnguarded(root, x.List, call, tr)
+		default:
+			return false
+		}
+	}
+	return false
+}
+
+// ---- (a') server-side pending tables
+
+var srvFiles = map[string]string{"streamable_server.go": "streamable", "sse_server.go": "sse", "stdio_server.go": "stdio"}
+
+type srvInsert struct {
+	server, fn, table string
+	deferred          bool
+}
+
+// srvTables: map-typed struct fields of the server files whose name says pending / responses.
+func srvTables(root *pkgSrc) map[string]bool {
+	out := map[string]bool{}
+	for fn := range srvFiles {
+		f := root.files[fn]
+		if f == nil {
+			continue
+		}
+		ast.Inspect(f, func(n ast.Node) bool {
+			st, ok := n.(*ast.StructType)
+			if !ok {
+				return true
+			}
+			for _, fld := range st.Fields.List {
+				if _, ok := fld.Type.(*ast.MapType); ok {
+					for _, nm := range fld.Names {
+						l := strings.ToLower(nm.Name)
+						if strings.Contains(l, "pending") || l == "responses" {
+							out[nm.Name] = true
+						}
+					}
+				}
+			}
+			return true
+		})
+	}
+	return out
+}
+
+func srvParamIndex(fd *ast.FuncDecl, name string) int {
+	i := 0
+	if fd.Type.Params == nil {
+		return -1
+	}
+	for _, p := range fd.Type.Params.List {
+		for _, nm := range p.Names {
+			if nm.Name == name {
+				return i
+			}
+			i++
+		}
+	}
+	return -1
+}
+
+type srvWrapper struct {
+	table string
+	arg   int
+}
+
+func srvInserts(root *pkgSrc) []srvInsert {
+	tables := srvTables(root)
+	type fn struct {
+		server string
+		fd     *ast.FuncDecl
+	}
+	var fs []fn
+	var files []string
+	for f := range srvFiles {
+		files = append(files, f)
+	}
+	sort.Strings(files)
+	for _, file := range files {
+		f := root.files[file]
+		if f == nil {
+			continue
+		}
+		for _, d := range f.Decls {
+			if fd, ok := d.(*ast.FuncDecl); ok && fd.Body != nil {
+				fs = append(fs, fn{srvFiles[file], fd})
+			}
+		}
+	}
+	hasDeferredDelete := func(fd *ast.FuncDecl) bool {
+		found := false
+		ast.Inspect(fd.Body, func(n ast.Node) bool {
+			if ds, ok := n.(*ast.DeferStmt); ok {
+				ast.Inspect(ds, func(m ast.Node) bool {
+					if c, ok := m.(*ast.CallExpr); ok {
+						if id, ok := c.Fun.(*ast.Ident); ok && id.Name == "delete" {
+							found = true
+						}
+					}
+					return true
+				})
+			}
+			return true
+		})
+		return found
+	}
+	// wrappers: a function whose only business with the table is the insert (key = one of its parameters), resp. the delete
+	inserters := map[string]srvWrapper{}
+	deleters := map[string]srvWrapper{}
+	for _, f := range fs {
+		ast.Inspect(f.fd.Body, func(n ast.Node) bool {
+			switch x := n.(type) {
+			case *ast.AssignStmt:
+				if len(x.Lhs) == 1 {
+					if ix, ok := x.Lhs[0].(*ast.IndexExpr); ok {
+						if tb := clTableOf(ix.X, tables); tb != "" {
+							if id, ok := ix.Index.(*ast.Ident); ok {
+								if i := srvParamIndex(f.fd, id.Name); i >= 0 && !hasDeferredDelete(f.fd) {
+									inserters[f.fd.Name.Name] = srvWrapper{tb, i}
+								}
+							}
+						}
+					}
+				}
+			case *ast.CallExpr:
+				if id, ok := x.Fun.(*ast.Ident); ok && id.Name == "delete" && len(x.Args) == 2 {
+					if tb := clTableOf(x.Args[0], tables); tb != "" {
+						if k, ok := x.Args[1].(*ast.Ident); ok {
+							if i := srvParamIndex(f.fd, k.Name); i >= 0 {
+								deleters[f.fd.Name.Name] = srvWrapper{tb, i}
+							}
+						}
+					}
+				}
+			}
+			return true
+		})
+	}
+	// deletesKey: does the defer statement delete `key` from `tb` (directly, in a function literal, or through a deleter)?
+	deletesKey := func(ds *ast.DeferStmt, tb, key string) bool {
+		found := false
+		ast.Inspect(ds, func(m ast.Node) bool {
+			c, ok := m.(*ast.CallExpr)
+			if !ok {
+				return true
+			}
+			if id, ok := c.Fun.(*ast.Ident); ok && id.Name == "delete" && len(c.Args) == 2 && clTableOf(c.Args[0], tables) == tb && clSquash(root, c.Args[1]) == key {
+				found = true
+			}
+			if w, ok := deleters[clCalleeName(c)]; ok && w.table == tb && w.arg < len(c.Args) && clSquash(root, c.Args[w.arg]) == key {
+				found = true
+			}
+			return true
+		})
+		return found
+	}
+	var out []srvInsert
+	for _, f := range fs {
+		if _, isWrapper := inserters[f.fd.Name.Name]; isWrapper {
+			continue
+		}
+		for idx, st := range f.fd.Body.List {
+			_ = idx
+			// an insert anywhere inside this top-level statement
+			type site struct {
+				pos      token.Pos
+				tb, key  string
+				topLevel bool
+			}
+			var sites []site
+			ast.Inspect(st, func(n ast.Node) bool {
+				switch x := n.(type) {
+				case *ast.FuncLit:
+					return false
+				case *ast.AssignStmt:
+					if len(x.Lhs) == 1 {
+						if ix, ok := x.Lhs[0].(*ast.IndexExpr); ok {
+							if tb := clTableOf(ix.X, tables); tb != "" {
+								sites = append(sites, site{x.Pos(), tb, clSquash(root, ix.Index), ast.Stmt(x) == st})
+							}
+						}
+					}
+				case *ast.CallExpr:
+					if w, ok := inserters[clCalleeName(x)]; ok && w.arg < len(x.Args) {
+						top := false
+						switch y := st.(type) {
+						case *ast.ExprStmt:
+							top = y.X == ast.Expr(x)
+						case *ast.AssignStmt:
+							top = len(y.Rhs) == 1 && y.Rhs[0] == ast.Expr(x)
+						}
+						sites = append(sites, site{x.Pos(), w.table, clSquash(root, x.Args[w.arg]), top})
+					}
+				}
+				return true
+			})
+			for _, si := range sites {
+				rec := srvInsert{server: f.server, fn: f.fd.Name.Name, table: si.tb}
+				var deferPos token.Pos
+				for _, st2 := range f.fd.Body.List {
+					if ds, ok := st2.(*ast.DeferStmt); ok && ds.Pos() > si.pos && deletesKey(ds, si.tb, si.key) {
+						deferPos = ds.Pos()
+						break
+					}
+				}
+				if deferPos != token.NoPos && si.topLevel {
+					rec.deferred = true
+					ast.Inspect(f.fd.Body, func(m ast.Node) bool {
+						if r, ok := m.(*ast.ReturnStmt); ok && r.Pos() > si.pos && r.Pos() < deferPos {
+							rec.deferred = false
+						}
+						return true
+					})
+				}
+				out = append(out, rec)
+			}
+		}
+	}
+	sort.Slice(out, func(i, j int) bool {
+		if out[i].server != out[j].server {
+			return out[i].server < out[j].server
+		}
+		return out[i].fn < out[j].fn
+	})
+	return out
+}
+
 func clLeanClient(c string) string { return "." + c }
 
 func clLeanHow(h string) string {
@@ -714,8 +1029,20 @@ func clGen(root *pkgSrc) {
 		fmt.Fprintf(&b, "\n  -- %s\n  %s", r, leanText(r))
 	}
 	b.WriteString("]\n")
-	fmt.Fprintf(&b, "def clTables : Tables :=\n  { inserts := clInserts, bodies := clBodies, selects := clSelects, chanClosers := clChanClosers, waitSites := clWaitSites,\n    readerCloses := %s, watcherCancels := %s, startGuarded := %s }\n",
-		leanBool(clReaderCloses(root, fs)), leanBool(clWatcherCancels(root, fs)), leanBool(clStartGuarded(root, fs)))
+	b.WriteString("/-- (a') Every function of the three servers that registers a server-issued request in a pending table. -/\ndef srvInserts : List SrvInsertSite := [")
+	for i, r := range srvInserts(root) {
+		if i > 0 {
+			b.WriteString(",")
+		}
+		fmt.Fprintf(&b, "\n  -- %s server %s → %s\n  { server := .%s, fn := %s, table := %s, deleteDeferred := %s }", r.server, r.fn, r.table, r.server, leanText(r.fn), leanText(r.table), leanBool(r.deferred))
+	}
+	b.WriteString("]\n")
+	var unguarded []string
+	for _, c := range clCloseUnguarded(root) {
+		unguarded = append(unguarded, clLeanClient(c))
+	}
+	fmt.Fprintf(&b, "def clTables : Tables :=\n  { inserts := clInserts, bodies := clBodies, selects := clSelects, chanClosers := clChanClosers, closeUnguarded := [%s], waitSites := clWaitSites,\n    readerCloses := %s, watcherCancels := %s, startGuarded := %s }\n",
+		strings.Join(unguarded, ", "), leanBool(clReaderCloses(root, fs)), leanBool(clWatcherCancels(root, fs)), leanBool(clStartGuarded(root, fs)))
 	b.WriteString("end Mcp.Gen.CallFacts\n")
 	writeIfChanged("CallFacts.lean", b.String())
 }
